@@ -115,6 +115,7 @@ STACKS = ["sim", "mem", "frag/sim", "frag/mem", "mbapp/sim", "mbapp/mem",
           "frag/frag/sim", "mbapp/frag/mem", "mux-varint/mux-string/sim"]
 
 PROPS["C01"] = {
+    "tierb": {"legs": ["quic/mem"], "runs": {"quick": 48, "thorough": 1500}, "budget": {"quick": 150, "thorough": 1500}},
     "pkg": "stk", "env": {"SIM_PROP": "C01"}, "legs": STACKS,
     "runs": {"quick": 2700, "thorough": 200000}, "budget": {"quick": 200, "thorough": 2400},
     "rule": "one run = one seed = one stack of the catalogue (27 stacks: every swarm implementation except QUIC/SSH/UDP and nestings up to depth 4, over the simulated network and over the real in-memory swarm) on 2-4 nodes with 1-3 concurrent senders and receivers per node, ledger payloads of boundary-biased lengths 0..MTU, random IOVec splits, buffers poisoned after Tell; network drop/duplicate/reorder (corruption only beneath P2PKE) and all task interleavings drawn from the seed; "
@@ -126,6 +127,7 @@ PROPS["C01"] = {
 }
 
 PROPS["C09"] = {
+    "tierb": {"legs": ["quic/mem"], "runs": {"quick": 48, "thorough": 1500}, "budget": {"quick": 150, "thorough": 1500}},
     "pkg": "stk", "env": {"SIM_PROP": "C09"}, "legs": STACKS,
     "runs": {"quick": 2700, "thorough": 150000}, "budget": {"quick": 200, "thorough": 2400},
     "rule": "one run = one stack of the catalogue on two nodes over a fault-free network with ample queues, per-run inner MTU (32..1280, small ones forcing up to 255 fragments), logical MTU, worker count and multiplexer channel id (empty/short/130-byte strings, 0, small and maximal integers); 3-8 Tell/Ask operations, one at a time, with lengths 0, 1, MTU-1, MTU, MTU+1, MTU+k and each layer's fragment-size boundaries; "
@@ -140,6 +142,7 @@ ASK_STACKS = ["mem", "mbapp/sim", "mbapp/mem", "askmux-string/mem", "askmux-vari
               "multi/mbapp/mem+mbapp/sim", "wl/mbapp/sim", "wl/mem", "mbapp/p2pke/sim", "mbapp/frag/mem"]
 
 PROPS["C11"] = {
+    "tierb": {"legs": ["quic/mem"], "runs": {"quick": 48, "thorough": 1500}, "budget": {"quick": 150, "thorough": 1500}},
     "pkg": "stk", "env": {"SIM_PROP": "C11"}, "legs": ASK_STACKS,
     "runs": {"quick": 2000, "thorough": 150000}, "budget": {"quick": 200, "thorough": 2400},
     "rule": "one run = one ask-capable stack (10 stacks: in-memory, message-box over simulated network / in-memory / fragmenting / P2PKE, ask-multiplexers, multi-transport, whitelisted) on 2-4 nodes with 1-4 concurrent askers and 1-3 servers per node; unique requests, handlers produce a unique response per (request, server, invocation); negative returns, too-small buffers, response sizes around buffer size and MTU, context deadlines 2 s..3 min of simulated time, a destination closed at a random step; loss/duplication/reordering of request and multi-part response datagrams; "
@@ -151,6 +154,7 @@ PROPS["C11"] = {
 }
 
 PROPS["C12"] = {
+    "tierb": {"legs": ["quic/mem"], "runs": {"quick": 48, "thorough": 1500}, "budget": {"quick": 150, "thorough": 1500}},
     "pkg": "stk", "env": {"SIM_PROP": "C12"}, "legs": [x for x in STACKS if x != "sim"],
     "runs": {"quick": 2600, "thorough": 150000}, "budget": {"quick": 240, "thorough": 2400},
     "rule": "one run = one stack of the catalogue (26 stacks) on 2-4 nodes: 0-3 tasks blocked in Receive and 0-3 in ServeAsk of a victim node with contexts that never expire, optional tells/asks in flight towards it, 1-2 closer tasks (sometimes closing twice, sometimes concurrently) at a seeded step, then new Receive/ServeAsk calls on the closed swarm; finally every node is closed; network faults and all task interleavings from the seed; "
@@ -227,6 +231,7 @@ PROPS["C05"] = {
 }
 
 PROPS["C04"] = {
+    "tierb": {"legs": ["quic/mem"], "runs": {"quick": 48, "thorough": 1500}, "budget": {"quick": 150, "thorough": 1500}},
     "pkg": "stk", "env": {"SIM_PROP": "C04"},
     "legs": ["p2pke/sim", "p2pke/mem", "frag/p2pke/sim", "mbapp/p2pke/sim", "mux-string/frag/p2pke/sim", "wl/mbapp/p2pke/sim", "p2pke/mapudp/sim", "p2pke/sim"],
     "runs": {"quick": 1600, "thorough": 100000}, "budget": {"quick": 240, "thorough": 2400},
